@@ -113,11 +113,21 @@ def _case(draw):
     if cfg["preset"] in ("commonmark", "zero") and not cfg["linkify"] and d.chance(0.5):
         # the instance is first built from another preset and used, then reconfigured
         late = d.pick(["default", "js-default", "commonmark"])
-    return {"src": src, "cfg": cfg, "route_opts": ro, "late": late, "unknown_pos": d.i(0, 5) if d.chance(0.25) else None}
+    # the post-processing steps that merge text fragments may be switched off for the conservative-extension clause
+    # (the quantifier keeps only the fallback rules 'paragraph' and 'text'): an extension must not leave traces that
+    # only the merging hides
+    post_off = d.pick([["text_join", "fragments_join"], ["fragments_join"], ["text_join"], ["balance_pairs", "fragments_join", "text_join"]]) if d.chance(0.25) else []
+    return {"src": src, "cfg": cfg, "route_opts": ro, "late": late, "unknown_pos": d.i(0, 5) if d.chance(0.25) else None, "post_off": post_off}
 
 
 def strategy(tier: str):
     return _case()
+
+
+def _off(md, names):
+    if names:
+        md.disable(list(names))
+    return md
 
 
 def strip_defs(ts):
@@ -190,18 +200,21 @@ def check(case) -> Res:
     res.nt = any(any(ch in src for ch in TRIGGERS.get(r, "")) for r in switched)
     # ---- (2) conservative extensions
     base = copy.deepcopy(cfg)
+    post_off = case.get("post_off") or []
+    if post_off:
+        res.cls.append("ext:text-merging-steps-off")
     if "|" not in src:
         a = copy.deepcopy(base); a["enable"] = [r for r in a["enable"] if r != "table"]; a["disable"] = list(set(a["disable"]) | {"table"})
         b = copy.deepcopy(base); b["disable"] = [r for r in b["disable"] if r != "table"]; b["enable"] = list(a["enable"]) + ["table"]
         ea: dict = {}; eb: dict = {}
-        ta = dump(C.build(a).parse(src, ea)); tb = dump(C.build(b).parse(src, eb))
+        ta = dump(_off(C.build(a), post_off).parse(src, ea)); tb = dump(_off(C.build(b), post_off).parse(src, eb))
         if ta != tb or ea != eb:
             res.fail("table-not-conservative", f"no '|' in {src!r}: {first_diff(ta, tb)}")
         res.cls.append("ext:table")
     if "~~" not in src:
         a = copy.deepcopy(base); a["enable"] = [r for r in a["enable"] if r != "strikethrough"]; a["disable"] = list(set(a["disable"]) | {"strikethrough"})
         b = copy.deepcopy(base); b["disable"] = [r for r in b["disable"] if r != "strikethrough"]; b["enable"] = list(a["enable"]) + ["strikethrough"]
-        ta = dump(C.build(a).parse(src)); tb = dump(C.build(b).parse(src))
+        ta = dump(_off(C.build(a), post_off).parse(src)); tb = dump(_off(C.build(b), post_off).parse(src))
         if ta != tb:
             res.fail("strikethrough-not-conservative", f"no '~~' in {src!r}: {first_diff(ta, tb)}")
         res.cls.append("ext:strikethrough")
